@@ -185,6 +185,12 @@ def r3_halton(ctx, repo):
               and len(s.value.args) == 2 and access_path(s.value.args[1]) == base]
         den = [i for i, s in enumerate(body) if isinstance(s, ast.AugAssign) and isinstance(s.op, ast.Mult) and access_path(s.value) == base]
         acc = [i for i, s in enumerate(body) if isinstance(s, ast.AugAssign) and isinstance(s.op, ast.Add) and isinstance(s.value, ast.BinOp) and isinstance(s.value.op, ast.Div)]
+        any_dm = [s_ for s_ in body if isinstance(s_, ast.Assign) and isinstance(s_.value, ast.Call) and access_path(s_.value.func) == "divmod" and len(s_.value.args) == 2]
+        if any_dm and not dm:
+            detail = "digits are extracted with %s, not in the base of the sequence (`%s`)" % (text(any_dm[0].value), base)
+        any_den = [s_ for s_ in body if isinstance(s_, ast.AugAssign) and isinstance(s_.op, ast.Mult)]
+        if dm and any_den and not den:
+            detail = "the denominator is multiplied by %s, not by the base" % text(any_den[0].value)
         if dm and den and acc:
             dvar = access_path(body[den[0]].target)
             quot, rem = [access_path(e) for e in body[dm[0]].targets[0].elts] if isinstance(body[dm[0]].targets[0], ast.Tuple) else (None, None)
